@@ -14,6 +14,7 @@ import subprocess
 import sys
 import time
 
+REPO = os.environ.get("VLS_REPO", "/repo")
 VERIF = os.path.dirname(os.path.dirname(os.path.abspath(__file__)))
 
 
@@ -51,34 +52,34 @@ def main():
             "needs_to_manifest": (re.search(r"(?is)(what it takes|manifest|sequence)[^\n]*\n(.{0,900})", notes) or [None, None, ""])[2].strip()[:900],
         })
     # evaluate
-    if sh("git -C /repo status --porcelain --untracked-files=no").stdout.strip():
+    if sh(f"git -C {REPO} status --porcelain --untracked-files=no").stdout.strip():
         print("refusing: /repo dirty")
         return 2
     patch = "patch_rebased.diff" if os.path.exists(os.path.join(d, "patch_rebased.diff")) else "patch.diff"
-    r = sh(f"git -C /repo apply --check {d}/{patch}")
+    r = sh(f"git -C {REPO} apply --check {d}/{patch}")
     applied_how = "git apply"
     if r.returncode != 0:
-        r2 = sh(f"git -C /repo apply --3way {d}/{patch}")
+        r2 = sh(f"git -C {REPO} apply --3way {d}/{patch}")
         applied_how = "git apply --3way"
         if r2.returncode != 0:
-            sh("git -C /repo reset -q --hard HEAD")
+            sh(f"git -C {REPO} reset -q --hard HEAD")
             meta["check_result"] = {"applies": False, "why": r.stdout[-400:]}
             json.dump(meta, open(meta_p, "w"), indent=1)
             print(f"{name}: patch does not apply on current /repo HEAD: {r.stdout[-300:]}")
             return 1
     else:
-        sh(f"git -C /repo apply {d}/{patch}")
+        sh(f"git -C {REPO} apply {d}/{patch}")
     t0 = time.time()
     try:
         c = sh(f"cd {VERIF} && ./check {prop} --tier quick")
     finally:
-        sh("git -C /repo reset -q --hard HEAD")
+        sh(f"git -C {REPO} reset -q --hard HEAD")
     viol = [l for l in c.stdout.splitlines() if l.startswith("VIOLATION")]
     rules = [l.strip() for l in c.stdout.splitlines() if l.strip().startswith("rule ")]
     meta["check_result"] = {
         "applies": True, "applied_with": applied_how, "patch_file": patch, "cmd": f"./check {prop} --tier quick", "exit": c.returncode,
         "detected": c.returncode == 1 and bool(viol), "violations": len(viol), "rules_fired": [x[:260] for x in rules[:6]],
-        "wall_s": round(time.time() - t0, 1), "at_repo_head": sh("git -C /repo rev-parse --short HEAD").stdout.strip(),
+        "wall_s": round(time.time() - t0, 1), "at_repo_head": sh(f"git -C {REPO} rev-parse --short HEAD").stdout.strip(),
     }
     json.dump(meta, open(meta_p, "w"), indent=1)
     print(f"{name}: exit={c.returncode} detected={meta['check_result']['detected']} ({len(viol)} violations)")
